@@ -368,4 +368,221 @@ MUTANTS = [
         self.encode_imports(&mut state, import_nodes)?;
 """,
          new="""""" ),
+
+    # ---------------- behaviour-preserving controls: no rule of ANY property may fire (prop="ALL")
+    dict(id="ctl-rename-helper", prop="ALL", control=True, file=G, multi=True,
+         old="remove_satisfied_arg", new="clear_satisfied_arg"),
+    dict(id="ctl-extract-option-helper", prop="ALL", control=True, file="crates/wac-graph/src/encoding.rs",
+         old="""    fn option(&self, state: &mut State, ty: ValueType) -> u32 {
+        let ty = self.value_type(state, ty);
+        let index = state.current.encodable.type_count();
+        state.current.encodable.ty().defined_type().option(ty);
+        index
+    }""",
+         new="""    fn option(&self, state: &mut State, ty: ValueType) -> u32 {
+        let ty = self.value_type(state, ty);
+        Self::emit_option(state, ty)
+    }
+
+    fn emit_option(state: &mut State, ty: ComponentValType) -> u32 {
+        let index = state.current.encodable.type_count();
+        state.current.encodable.ty().defined_type().option(ty);
+        index
+    }"""),
+    dict(id="ctl-bidi-range-pattern", prop="ALL", control=True, file="crates/wac-parser/src/lexer.rs",
+         old="""            '\\u{202a}' | '\\u{202b}' | '\\u{202c}' | '\\u{202d}' | '\\u{202e}' | '\\u{2066}'
+            | '\\u{2067}' | '\\u{2068}' | '\\u{2069}' => {""",
+         new="""            '\\u{202a}'..='\\u{202e}' | '\\u{2066}'..='\\u{2069}' => {"""),
+    dict(id="ctl-plug-is-none-idiom", prop="ALL", control=True, file="crates/wac-graph/src/plug.rs",
+         old="""            let plug_instantiation =
+                *plug_instantiation.get_or_insert_with(|| graph.instantiate(plug));""",
+         new="""            if plug_instantiation.is_none() {
+                plug_instantiation = Some(graph.instantiate(plug));
+            }
+            let plug_instantiation = plug_instantiation.unwrap();"""),
+    dict(id="ctl-unique-match-by-match", prop="ALL", control=True, file="crates/wac-parser/src/resolution.rs",
+         old="""        let (name, _) = matches.next()?;
+        if matches.next().is_some() {
+            // More than one match, the name is ambiguous
+            return None;
+        }
+
+        Some(name)""",
+         new="""        match (matches.next(), matches.next()) {
+            (Some((name, _)), None) => Some(name),
+            // No match, or more than one match (the name is ambiguous)
+            _ => None,
+        }"""),
+    dict(id="ctl-checker-reorder-independent-tests", prop="ALL", control=True, file="crates/wac-types/src/checker.rs",
+         old="""                if ashared != bshared {
+                    bail!("mismatched shared flag for memories");
+                }
+
+                if a64 != b64 {
+                    bail!("mismatched memory64 flag for memories");
+                }
+""",
+         new="""                if a64 != b64 {
+                    bail!("mismatched memory64 flag for memories");
+                }
+
+                if ashared != bshared {
+                    bail!("mismatched shared flag for memories");
+                }
+"""),
+    dict(id="ctl-visitor-all-instead-of-loop", prop="ALL", control=True, file="crates/wac-resolver/src/visitor.rs",
+         old="""            TypeStatement::World(w) => {
+                for item in &w.items {
+                    if !self.world_item(item) {
+                        return false;
+                    }
+                }
+
+                true
+            }""",
+         new="""            TypeStatement::World(w) => w.items.iter().all(|item| self.world_item(item)),"""),
+    dict(id="ctl-fs-rename-locals-and-comments", prop="ALL", control=True, file="crates/wac-resolver/src/fs.rs",
+         old="""                    let mut path = self.root.clone();
+                    for segment in key.name.split(':') {
+                        path.push(segment);
+                    }""",
+         new="""                    // <root>/<ns>/<name>...
+                    let mut path = self.root.clone();
+                    for part in key.name.split(':') {
+                        path.push(part);
+                    }"""),
+    dict(id="ctl-aggregate-let-binding", prop="ALL", control=True, file="crates/wac-types/src/aggregator.rs",
+         old="""            if new_version > existing_version {""",
+         new="""            let newer = new_version > existing_version;
+            if newer {"""),
+    dict(id="ctl-printer-write-str", prop="ALL", control=True, file="crates/wac-parser/src/ast/printer.rs",
+         old="""            write!(self.writer, " targets ")?;""",
+         new="""            self.writer.write_str(" targets ")?;"""),
+
+    # ---------------- reverts of fixed defects (the check must report the violation again if it returns)
+    dict(id="c13-revert-fill-separator", prop="C13", expect="R13.5|separator|new_expr|Fill", file="crates/wac-parser/src/ast/printer.rs",
+         old="""                    if i + 1 < expr.arguments.len() {
+                        write!(self.writer, ",")?;
+                    }""",
+         new="""                    let _ = i;"""),
+    dict(id="c13-revert-targets-keyword", prop="C13", expect="R13.4|tokens|package_directive", file="crates/wac-parser/src/ast/printer.rs",
+         old="""            write!(self.writer, " targets ")?;""", new="""            write!(self.writer, " ")?;"""),
+    dict(id="c08-revert-item-kind-arms", prop="C08", expect="R08.6|total|TypeEncoder::export", file="crates/wac-graph/src/encoding.rs",
+         old="""                ItemKind::Component(_) => ComponentTypeRef::Component(index),
+                ItemKind::Module(_) => ComponentTypeRef::Module(index),
+                ItemKind::Value(_) => ComponentTypeRef::Value(ComponentValType::Type(index)),
+            },""",
+         new="""                _ => panic!("expected only types, functions, and instance types"),
+            },"""),
+    dict(id="c20-revert-name-keyed-map", prop="C20", expect="R20.1|work-list-is-1-1", file="crates/wac-resolver/src/registry.rs",
+         old="""            .collect::<Result<Vec<(PackageName, (Option<Version>, SourceSpan))>, Error>>()?;""",
+         new="""            .collect::<Result<IndexMap<PackageName, (Option<Version>, SourceSpan)>, Error>>()?;"""),
+    dict(id="c03-imports-filter-not-negated", prop="C03", expect="R03.1|unsatisfied-filter|imports", file=G,
+         old="""                .filter(|(i, _)| !node.is_arg_satisfied(*i));
+
+            // Go through the unsatisfied arguments and import them
+            for (_, (name, item_kind)) in unsatisfied_args {""",
+         new="""                .filter(|(i, _)| node.is_arg_satisfied(*i));
+
+            // Go through the unsatisfied arguments and import them
+            for (_, (name, item_kind)) in unsatisfied_args {"""),
+    dict(id="c03-raw-name-lookup", prop="C03", expect="R03.3|canonical-lookup", file=G,
+         old="""            let canonical = aggregator.canonical_import_name(name);
+            let (kind, index) = encoded[canonical];""",
+         new="""            let (kind, index) = encoded[name];"""),
+    dict(id="c02-argument-index-of-target", prop="C02", expect="R02.1|argument-index", file=G,
+         old="""                    let index = state.node_indexes[&e.source()];""",
+         new="""                    let index = state.node_indexes[&e.target()];"""),
+    dict(id="c02-swap-name-maps", prop="C02", expect="R02.6|names|", file=G,
+         old="""                    ItemKind::Func(_) => &mut funcs,
+                    ItemKind::Instance(_) => &mut instances,""",
+         new="""                    ItemKind::Func(_) => &mut instances,
+                    ItemKind::Instance(_) => &mut funcs,"""),
+    dict(id="c02-no-memo-insert", prop="C02", expect="R02.4|", file=G,
+         old="""            state.packages.insert(package_id, index);
+            index""", new="""            index"""),
+    dict(id="c19-swap-flags", prop="C19", expect="R19.1|option|", file="src/commands/compose.rs",
+         old="""            define_components: !self.import_dependencies,
+            validate: !self.no_validate,""",
+         new="""            define_components: !self.no_validate,
+            validate: !self.import_dependencies,"""),
+    dict(id="c19-polarity", prop="C19", expect="R19.1|option|define_components", file="src/commands/compose.rs",
+         old="""            define_components: !self.import_dependencies,""", new="""            define_components: self.import_dependencies,"""),
+    dict(id="c18-set-extension-instead-of-append", prop="C18", expect="R18.2|", file="crates/wac-resolver/src/fs.rs",
+         old="""                        append_extension(&mut path, "wasm");""", new="""                        path.set_extension("wasm");"""),
+    dict(id="c11-exports-world-first", prop="C11", expect="R11.1|exports|resolver", file="crates/wac-parser/src/resolution.rs",
+         old="""                .is_subtype(
+                    state.graph[export].item_kind(),
+                    state.graph.types(),
+                    expected.promote(),
+                    state.graph.types(),
+                )""",
+         new="""                .is_subtype(
+                    expected.promote(),
+                    state.graph.types(),
+                    state.graph[export].item_kind(),
+                    state.graph.types(),
+                )"""),
+    dict(id="c12-keyword-spelling", prop="C12", expect="R12.3|token|IncludeKeyword", file="crates/wac-parser/src/lexer.rs",
+         old="""    #[token("include")]""", new="""    #[token("includes")]"""),
+    dict(id="c12-trailing-separator-mandatory", prop="C12", expect="R12.7|trailing-comma-optional", file="crates/wac-parser/src/ast.rs",
+         old="""        if let Some((Ok(next), _)) = lexer.peek() {
+            if next == until {
+                break;
+            }
+
+            if with_commas {
+                parse_token(lexer, Token::Comma)?;
+            }
+        }""",
+         new="""        if with_commas {
+            parse_token(lexer, Token::Comma)?;
+        }"""),
+    dict(id="c05-swap-s8-u8", prop="C05", expect="R05.2|table|", file="crates/wac-parser/src/resolution.rs",
+         old="""            ast::Type::U8(_) => Ok(ValueType::Primitive(PrimitiveType::U8)),
+            ast::Type::S8(_) => Ok(ValueType::Primitive(PrimitiveType::S8)),""",
+         new="""            ast::Type::U8(_) => Ok(ValueType::Primitive(PrimitiveType::S8)),
+            ast::Type::S8(_) => Ok(ValueType::Primitive(PrimitiveType::U8)),"""),
+    dict(id="c08-swap-memory-flags", prop="C08", expect="R08.1|field|", file="crates/wac-types/src/core.rs",
+         old="""            memory64: ty.memory64,
+            shared: ty.shared,""",
+         new="""            memory64: ty.shared,
+            shared: ty.memory64,"""),
+    dict(id="c04-suffix-before-import-name", prop="C04", expect="R04.1|", file="crates/wac-parser/src/resolution.rs",
+         old="""        // If the item comes from an import or an alias, try the name associated with it
+        let node = item.node();
+        if let Some(name) = state.graph.get_import_name(node) {
+            if world.imports.contains_key(name) {
+                return Ok((name.to_string(), item, ident.span));
+            }
+        } else if let Some((_, name)) = state.graph.get_alias_source(node) {
+            if world.imports.contains_key(name) {
+                return Ok((name.to_string(), item, ident.span));
+            }
+        }
+
+        // Fall back to searching for a matching interface name, provided it is not ambiguous
+        // For example, match `foo:bar/baz` if `baz` is the identifier and the only match
+        if let Some(name) = Self::find_matching_interface_name(ident.string, &world.imports) {
+            return Ok((name.to_owned(), item, ident.span));
+        }
+""",
+         new="""        // Fall back to searching for a matching interface name, provided it is not ambiguous
+        // For example, match `foo:bar/baz` if `baz` is the identifier and the only match
+        if let Some(name) = Self::find_matching_interface_name(ident.string, &world.imports) {
+            return Ok((name.to_owned(), item, ident.span));
+        }
+
+        // If the item comes from an import or an alias, try the name associated with it
+        let node = item.node();
+        if let Some(name) = state.graph.get_import_name(node) {
+            if world.imports.contains_key(name) {
+                return Ok((name.to_string(), item, ident.span));
+            }
+        } else if let Some((_, name)) = state.graph.get_alias_source(node) {
+            if world.imports.contains_key(name) {
+                return Ok((name.to_string(), item, ident.span));
+            }
+        }
+"""),
 ]
